@@ -1,6 +1,7 @@
 (* Property C12 — derived units partition correctly. *)
 From Coq Require Import ZArith Bool List.
-From GettsimModel Require Import Num Val Groupings.
+From Coq Require Import Permutation.
+From GettsimModel Require Import Num Val Groupings CoupleSpec.
 Import ListNotations.
 Open Scope Z_scope.
 
@@ -46,3 +47,53 @@ Theorem C12_fg_old_refuted :
   same_partition (fg_id fg_witness) (fg_ref fg_witness) = true.
 Proof. exact fg_old_refuted. Qed.
 Print Assumptions C12_fg_old_refuted.
+
+(* UNBOUNDED (tables of any size): with unique non-negative person ids and symmetric partner pointers,
+   two rows are in the same Einstandsgemeinschaft / marriage exactly when they are the same person or
+   point to each other.  The right-hand side does not mention row positions. *)
+Theorem C12_eg_id_spec : forall ps, couple_wf einst ps ->
+  length (eg_id ps) = length ps /\
+  forall i j a b, nth_error ps i = Some a -> nth_error ps j = Some b ->
+    (nth_error (eg_id ps) i = nth_error (eg_id ps) j <-> pid a = pid b \/ (0 <= einst a /\ einst a = pid b)).
+Proof. exact eg_id_spec. Qed.
+Print Assumptions C12_eg_id_spec.
+
+Theorem C12_ehe_id_spec : forall ps, couple_wf ehep ps ->
+  length (ehe_id ps) = length ps /\
+  forall i j a b, nth_error ps i = Some a -> nth_error ps j = Some b ->
+    (nth_error (ehe_id ps) i = nth_error (ehe_id ps) j <-> pid a = pid b \/ (0 <= ehep a /\ ehep a = pid b)).
+Proof. exact ehe_id_spec. Qed.
+Print Assumptions C12_ehe_id_spec.
+
+(* tax units: spouses who are both jointly assessed; any table size *)
+Theorem C12_sn_id_spec : forall ps ids, couple_wf ehep ps -> sn_id ps = Ok ids ->
+  length ids = length ps /\
+  forall i j a b, nth_error ps i = Some a -> nth_error ps j = Some b ->
+    (nth_error ids i = nth_error ids j <->
+     pid a = pid b \/ (0 <= ehep a /\ ehep a = pid b /\ gemv a = true /\ gemv b = true)).
+Proof. exact sn_id_spec. Qed.
+Print Assumptions C12_sn_id_spec.
+
+(* hence the partitions do not depend on the row order, for tables of any size *)
+Theorem C12_eg_id_order_free : forall ps ps', couple_wf einst ps -> Permutation ps ps' ->
+  forall i j i' j' a b,
+    nth_error ps i = Some a -> nth_error ps j = Some b -> nth_error ps' i' = Some a -> nth_error ps' j' = Some b ->
+    (nth_error (eg_id ps) i = nth_error (eg_id ps) j <-> nth_error (eg_id ps') i' = nth_error (eg_id ps') j').
+Proof. exact eg_id_order_free. Qed.
+Print Assumptions C12_eg_id_order_free.
+
+Theorem C12_sn_id_order_free : forall ps ps' ids, couple_wf ehep ps -> Permutation ps ps' -> sn_id ps = Ok ids ->
+  exists ids', sn_id ps' = Ok ids' /\
+  forall i j i' j' a b,
+    nth_error ps i = Some a -> nth_error ps j = Some b -> nth_error ps' i' = Some a -> nth_error ps' j' = Some b ->
+    (nth_error ids i = nth_error ids j <-> nth_error ids' i' = nth_error ids' j').
+Proof. exact sn_id_order_free. Qed.
+Print Assumptions C12_sn_id_order_free.
+
+(* the hypotheses are decidable (evaluated on the generated populations of U3) and satisfiable *)
+Theorem C12_couple_wf_decidable : forall ptr ps, couple_wf_b ptr ps = true -> couple_wf ptr ps.
+Proof. exact couple_wf_b_sound. Qed.
+Print Assumptions C12_couple_wf_decidable.
+
+Theorem C12_hypotheses_satisfiable : couple_wf ehep demo /\ couple_wf einst demo /\ flags_agree demo.
+Proof. exact demo_wf. Qed.
